@@ -16,17 +16,26 @@ from common import Case
 PID = 'C15'
 LEAN_TARGETS = ['NibabelModel.Props.C15']
 THEOREMS = [
-    'Nb.C15.refines_list_partial',
-    'Nb.C15.step_refines',
     'Nb.C15.inv_step',
-    'Nb.C15.inv_run_partial',
+    'Nb.C15.inv_run',
+    'Nb.C15.step_refines',
+    'Nb.C15.refines_list_partial',
     'Nb.C15.append_is_list_append',
-    'Nb.C15.growing_view_preserves_parent_partial',
+    'Nb.C15.extend_is_list_extend',
+    'Nb.C15.extendGen_is_list_extend',
+    'Nb.C15.extendSeq_is_list_extend',
+    'Nb.C15.growing_view_preserves_parent',
+    'Nb.C15.concat_is_list_concat',
     'Nb.C15.copy_is_list_copy',
     'Nb.C15.slice_is_list_slice',
+    'Nb.C15.op_is_list_map',
+    'Nb.C15.opSeq_is_elementwise',
     'Nb.C15.view_setitem_hits_parent_exactly',
     'Nb.C15.setitem_is_list_setitem',
     'Nb.C15.iop_all_or_none',
+    'Nb.C15.iopSeq_all_or_none',
+    'Nb.C15.iopSeq_target',
+    'Nb.C15.iopSeq_spec_partial',
     'Nb.C15.orig_view_append_overwrites_parent',
     'Nb.C15.orig_iop_partial',
 ]
@@ -45,12 +54,15 @@ ASSUMPTIONS = [
     'shrink_data() calls are outside the modelled operation list; operators with an ArraySequence '
     'operand are generated only with element-by-element equal row counts (or refused by _check_shape); '
     'comparison results (bool data) are only read, sliced and copied afterwards',
-    'PARTIAL: the theorems cover every state satisfying the storage invariant Inv and every history over '
-    '{new, one-shot append, ArraySequence(seq), copy, slice/list/mask/int getitem, int/slice setitem, '
-    'in-place arithmetic}; the cached-build loops (extend, extend(generator), extend(seq), concatenate) '
-    '`seq op k`, operators whose right operand is an ArraySequence (+ - * <, in place and not, operands '
-    'may alias) and unary operators are modelled and covered by correspondence + oracle but have no '
-    'theorem yet',
+    'PROVED (unbounded): Inv after every history over ALL operations (inv_run); list refinement for every '
+    'operation that does not write through an existing array — new, append, extend list/generator/sequence, '
+    'ArraySequence(seq), copy, slice/list/mask/int getitem, seq op k, unary, seq op other, concatenate — '
+    '(refines_list_partial); growing a view in any way never alters its parent; exact characterisation of '
+    'int/slice setitem and of in-place arithmetic with a scalar or with an ArraySequence stored in another '
+    'buffer (all-or-none). PARTIAL: no single linked reference run that also carries the writes '
+    '(refines_list_partial); in-place arithmetic whose ArraySequence operand shares the buffer (aliasing) '
+    'or whose target selects an array twice has only Inv + frame (iopSeq_spec_partial) — both are covered '
+    'by correspondence + oracle',
     'Basic/PySlice is the specification of Python slicing (validated by the C06 check)',
 ]
 RULE = ('histories over live sequences: exhaustive to depth 2 (full alphabet, 7 start states) and 3 (core '
